@@ -15,7 +15,7 @@ from ..worlds import store
 ID = "C11"
 LEVEL = "exploration"
 CHUNK = 40
-BUDGET = {"quick": {"runs": 1200, "wall": 150}, "thorough": {"runs": 100000, "wall": 3000}}
+BUDGET = {"quick": {"runs": 1200, "wall": 150}, "thorough": {"runs": 100000, "wall": 1200}}
 RULE = ("3-6 anchor events, 5-9 standing probe filters derived from them (every field combination, "
         "single and multi values), then 6-20 steps adding/removing non-matching neighbours (kind +-1, "
         "+-256, tag value extended/truncated/NUL-extended/case-changed, pubkey and id differing in the "
